@@ -75,8 +75,10 @@ let model_of = function
         fstatus = series_of st; fiters = series_of it }
   | _ -> failwith "model"
 let class_of = function
-  | L [A "class"; names; d; dv; strict] -> { cnames = names_of names; cdtype = ndt_of d; cdefault = cell_of dv; cstrict = bool_of strict }
+  | L (A "class" :: names :: d :: dv :: strict :: _) -> { cnames = names_of names; cdtype = ndt_of d; cdefault = cell_of dv; cstrict = bool_of strict }
   | _ -> failwith "class"
+let rec nat_of_int n = if n <= 0 then O else S (nat_of_int (n - 1))
+let nargs_of = function L [A "class"; _; _; _; _; n] -> nat_of_int (int_of_string (atom n)) | _ -> O
 let column_of = function L [n; d; cs] -> { pcname = str_of n; pcdt = pdt_of d; pccells = cells_of cs } | _ -> failwith "column"
 let index_of = function L [k; d; cs] -> { ikd = ikind_of k; idt = pdt_of d; ilabels = cells_of cs } | _ -> failwith "index"
 let table_of = function L [A "table"; ix; cols] -> { tindex = index_of ix; tcols = List.map column_of (list_of cols) } | _ -> failwith "table"
@@ -134,7 +136,7 @@ let handle line =
   match parse (tokenize line) with
   | L [A "export"; st; it; ii; m; c] ->
       let t = model_to_table (bool_of st) (bool_of it) (bool_of ii) (model_of m) in
-      let rt = match t with TOk tb -> jres jmodel (from_table (class_of c) tb) | _ -> "null" in
+      let rt = match t with TOk tb -> jres jmodel (from_dataframe_call (nargs_of c) (class_of c) tb) | _ -> "null" in
       "{\"table\":" ^ jres jtable t ^ ",\"rt\":" ^ rt ^ "}"
   | L [A "linker"; st; it; ii; name; m; subs] ->
       let l = { lname = cell_of name; lmodel = model_of m;
@@ -143,6 +145,16 @@ let handle line =
   | L [A "container"; sp; vars] ->
       let vs = List.map (function L [n; s] -> (str_of n, series_of s) | _ -> failwith "var") (list_of vars) in
       "{\"table\":" ^ jres jtable (container_to_table (span_of sp) vs) ^ "}"
+  | L [A "pdseries"; sr] ->
+      let (d, cs) = pd_of_series (series_of sr) in "{\"dtype\":" ^ jstr (pdt_name d) ^ ",\"cells\":" ^ jlist jcell cs ^ "}"
+  | L [A "pdinfer"; cs] ->
+      let cells = cells_of cs in
+      let col = (match pd_infer cells with Some (d, cs') -> "{\"dtype\":" ^ jstr (pdt_name d) ^ ",\"cells\":" ^ jlist jcell cs' ^ "}" | None -> "{\"unmodelled\":true}") in
+      let idx = (match pd_index { spkind = SList; splabels = cells } with
+                 | Some ix -> "{\"kind\":" ^ jstr (ikind_name ix.ikd) ^ ",\"dtype\":" ^ jstr (pdt_name ix.idt) ^ ",\"labels\":" ^ jlist jcell ix.ilabels ^ "}"
+                 | None -> "{\"unmodelled\":true}") in
+      "{\"col\":" ^ col ^ ",\"index\":" ^ idx ^ "}"
+  | L [A "pdcast"; d; sr] -> "{\"cast\":" ^ jres (jlist jcell) (cast_series (ndt_of d) (series_of sr)) ^ "}"
   | L [A "symbols"; ss] ->
       let t = symbols_to_table (List.map sym_of (list_of ss)) in
       let rt = match t with TOk tb -> jres (jlist jsym) (table_to_symbols tb) | _ -> "null" in
